@@ -167,3 +167,144 @@ def _empty_name(S):
 
 
 ALL += [to_hashable, compute_cache_key, executor_for_func]
+
+
+# ---- pipefunc/map/_run.py::_existing_and_missing_indices (C05, C06, C03) -----------------------------------------------
+SB = TSeq(TBool)
+SI = TSeq(TInt)
+def _mk_storage(d):
+    """A real in-memory storage array whose element i is stored iff not mask[i]."""
+    from pipefunc.map._storage_array._dict import DictArray
+    arr = DictArray(None, (len(d["mask"]),))
+    for i, m in enumerate(d["mask"]):
+        if not m:
+            arr.dump((i,), f"v{i}")
+    return arr
+
+
+StorageArr = TRec("StorageArr", {"sid": TObj, "mask": SB, "dump_in_subprocess": TBool}, to_py=_mk_storage,
+                  from_py=lambda o: {"sid": id(o), "mask": tuple(bool(x) for x in o.mask_linear()),
+                                     "dump_in_subprocess": bool(o.dump_in_subprocess)})
+SArr = TSeq(StorageArr)
+
+storage_mask_linear = Contract(
+    "pipefunc/map/_storage_array/_base.py::StorageBase.mask_linear", params={"self": StorageArr}, returns=SB,
+    trusted=True, ensures=lambda S, a, r, post: ({"is-the-mask": r.t == a.self.mask.t} if S.symbolic else {}),
+    note="abstract view of a storage array: mask_linear()[i] <=> element i (row-major external index) is missing; the "
+         "backends' implementations are checked against this view on the bounded rung (C07)",
+)
+storage_mask_linear.qualname = "pipefunc/map/_storage_array/_base.py::StorageArr.mask_linear"
+
+
+def _sel(S, a, i):
+    return S.ite(S.is_none(a.fixed_mask), True, lambda: S.some(a.fixed_mask)[i]) if S.symbolic else \
+        (True if a.fixed_mask is None else a.fixed_mask[i])
+
+
+def _n_elements(S, a):
+    return S.len(a.arrays[0].mask) if S.symbolic else len(a.arrays[0].mask_linear())
+
+
+def _mask_at(S, a, r, i):
+    return a.arrays[r].mask[i] if S.symbolic else a.arrays[r].mask_linear()[i]
+
+
+def _em_arrays(S, a):
+    n = _n_elements(S, a)
+    some_missing = lambda i: S.exists(0, S.len(a.arrays), lambda r: _mask_at(S, a, r, i))  # noqa: E731
+    cm, ax1 = S.defarray("spec:missing", [a.arrays, a.fixed_mask] if S.symbolic else [],
+                         lambda i: S.and_(0 <= i, i < n, lambda: S.and_(_sel(S, a, i), some_missing(i))), n)
+    ce, ax2 = S.defarray("spec:existing", [a.arrays, a.fixed_mask] if S.symbolic else [],
+                         lambda i: S.and_(0 <= i, i < n, lambda: S.and_(_sel(S, a, i), S.not_(some_missing(i)))), n)
+    return n, cm, ce, [ax1, ax2]
+
+
+def _part(S, r, i):
+    return r.t[i] if S.symbolic else r[i]
+
+
+def _filtered(S, lst, C, upto):
+    """lst is the increasing list of the indices i < upto with C[i]."""
+    return S.and_(S.len(lst) == S.cnt(C, upto),
+                  S.forall(0, upto, lambda i: S.implies(C[i], lambda: lst[S.cnt(C, i)] == i)))
+
+
+def _em_ensures(S, a, r, post):
+    n, cm, ce, _ = _em_arrays(S, a)
+    return {"missing = selected indices with some output absent (increasing)": _filtered(S, _part(S, r, 1), cm, n),
+            "existing = selected indices with every output stored (increasing)": _filtered(S, _part(S, r, 0), ce, n)}
+
+
+def _em_inv(S, a, v, k):
+    n, cm, ce, _ = _em_arrays(S, a)
+    return {"missing-prefix": _filtered(S, v.missing_indices, cm, k),
+            "existing-prefix": _filtered(S, v.existing_indices, ce, k)}
+
+
+existing_and_missing = Contract(
+    "pipefunc/map/_run.py::_existing_and_missing_indices",
+    params={"arrays": SArr, "fixed_mask": TOpt(SB)}, returns=TTuple([SI, SI]),
+    requires=lambda S, a: {
+        "at-least-one-output": S.len(a.arrays) >= 1,
+        "masks-equally-long": S.forall(0, S.len(a.arrays), lambda r: S.len(a.arrays[r].mask) == _n_elements(S, a))
+        if S.symbolic else len({len(x.mask_linear()) for x in a.arrays}) == 1,
+        "fixed-mask-covers-the-index-space": S.implies(S.not_(S.is_none(a.fixed_mask)),
+                                                       lambda: S.len(S.some(a.fixed_mask)) == _n_elements(S, a)),
+    },
+    axioms=lambda S, a: _em_arrays(S, a)[3],
+    ensures=_em_ensures,
+    loops={0: LoopSpec(_em_inv)},
+    locals_={"existing_indices": SI, "missing_indices": SI},
+)
+
+ALL += [storage_mask_linear, existing_and_missing]
+
+
+def em_gen(rng, tier):
+    """Real storage arrays of every backend (1-3 outputs of one function, shapes up to 3x3, some with internal axes),
+    partially filled; fixed mask absent or a boolean array over the external index space."""
+    import tempfile
+    import numpy as np
+    from pipefunc.map._storage_array._dict import DictArray, SharedMemoryDictArray
+    from pipefunc.map._storage_array._file import FileArray
+    n = 120 if tier == "quick" else 1200
+    tmp = _scratch_dir("vf_em_")
+    for q in range(n):
+        shape = tuple(rng.randint(1, 3) for _ in range(rng.randint(1, 2)))
+        internal = rng.random() < 0.25
+        smask = (*(True,) * len(shape), False) if internal else None
+        size = int(np.prod(shape))
+        arrays = []
+        for r in range(rng.randint(1, 3)):
+            kind = rng.choice(("dict", "dict", "file", "file", "file", "shm") if q % 10 == 0 else ("dict", "file"))
+            if kind == "file":
+                arr = FileArray(f"{tmp}/{q}_{r}", shape, (2,) if internal else None, smask)
+            elif kind == "dict":
+                arr = DictArray(None, shape, (2,) if internal else None, smask)
+            else:
+                arr = SharedMemoryDictArray(None, shape, (2,) if internal else None, smask)
+            for lin in range(size):
+                if rng.random() < 0.5:
+                    idx = tuple(int(x) for x in np.unravel_index(lin, shape))
+                    arr.dump(idx, np.array([lin, -lin]) if internal else f"v{lin}")
+            arrays.append(arr)
+        fixed = None if rng.random() < 0.4 else [rng.random() < 0.6 for _ in range(size)]
+        yield {"arrays": arrays, "fixed_mask": fixed}
+
+
+def _scratch_dir(prefix):
+    """A scratch directory removed when this process ends (also when it is a multiprocessing worker)."""
+    import atexit
+    import shutil
+    import tempfile
+    from multiprocessing import util
+    tmp = tempfile.mkdtemp(prefix=prefix)
+    atexit.register(shutil.rmtree, tmp, True)
+    util.Finalize(None, shutil.rmtree, args=(tmp, True), exitpriority=1)
+    return tmp
+
+
+def em_call(fn, a):
+    import numpy as np
+    fm = a["fixed_mask"]
+    return fn(a["arrays"], None if fm is None else np.array(fm, dtype=bool).flat)
